@@ -6,20 +6,46 @@ from .registry import rule
 from .core import call_name, dotted, walk_shallow, walk_body, unparse, AnchorMissing
 
 
+def find_path_encoder(prog):
+    """the function that turns a group and a channel name into a path string, found by what it does: it (or a helper it calls)
+    doubles the quote character of a name (x.replace(Q, Q + Q) with constant Q) and it takes the two names; the historical name
+    is the fallback"""
+    from .flow import resolve_call
+    quoting = []
+    for f in sorted(prog.functions.values(), key=lambda f: f.qual):
+        if f.module.name != "common":
+            continue
+        for c in walk_body(f.node):
+            if isinstance(c, ast.Call) and isinstance(c.func, ast.Attribute) and c.func.attr == "replace" and len(c.args) == 2:
+                a, b = prog.try_fold(c.args[0], f.module), prog.try_fold(c.args[1], f.module)
+                if isinstance(a, str) and isinstance(b, str) and len(a) == 1 and b == a + a and f not in quoting:
+                    quoting.append(f)
+    cands = list(quoting)
+    for f in sorted(prog.functions.values(), key=lambda f: f.qual):
+        if f.module.name == "common" and f not in cands and any(
+                isinstance(c, ast.Call) and any(t in quoting for t, _k in resolve_call(prog, f, f.cls, c)) for c in walk_body(f.node)):
+            cands.append(f)
+    nparams = lambda f: len([p for p in f.params if not (f.cls is not None and not f.is_static and p in ("self", "cls"))])
+    cands = [f for f in cands if f.name != "__init__" and nparams(f) >= 2]
+    if cands:
+        return sorted(cands, key=lambda f: (-nparams(f), f.qual))[0]
+    return prog.func("common._components_to_path")
+
+
 def _encoder_alphabet(prog):
     """(FuncInfo, (S, Q) or None, reason).  The encoder is put in normal form and compared, for every combination of absent (None),
     empty and non-empty group / channel names, with  S + S.join(Q + name.replace(Q, QQ) + Q  for each name that is not None)."""
     from .sym import Sym, show
     from .sem import match, W, enumerate_list, optional_string_oracle
-    fi = prog.func("common._components_to_path")
-    v = Sym(prog, fi, None).function_value()
+    fi = find_path_encoder(prog)
+    v = Sym(prog, fi, fi.cls).function_value()
     b = match(("binop", "+", (("const", W("S")), ("method", "join", ("const", W("S2")), (W("seq"),), ()))), v)
     if b is None:
-        return fi, None, "result `%s` is not <separator> + <separator>.join(<components>)" % show(v)[:120]
+        return fi, "?", "result `%s` is not of the form <separator> + <separator>.join(<components>)" % show(v)[:120]
     S = b["S"]
     if b["S2"] != S:
         return fi, None, "prefix %r and join separator %r differ" % (S, b["S2"])
-    params = [("param", p) for p in fi.params]
+    params = [("param", p) for p in fi.params if not (fi.cls is not None and not fi.is_static and p in ("self", "cls"))]
     Q = None
     for vals in [(g, c) for g in (None, "", "x") for c in (None, "", "x")]:
         assign = dict(zip(params, vals))
@@ -56,9 +82,9 @@ def pt1(ctx, R):
     prog = ctx.prog
     fi, alpha, why = _encoder_alphabet(prog)
     if alpha == "?":
-        R.undecided("common._components_to_path::encoder", fi.where(), why)
+        R.undecided("%s::encoder" % fi.qual, fi.where(), why)
     else:
-        R.check(alpha is not None and alpha == ("/", "'"), "common._components_to_path::encoder", fi.where(),
+        R.check(alpha is not None and alpha == ("/", "'"), "%s::encoder" % fi.qual, fi.where(),
                 "'/' + '/'.join(\"'\" + c.replace(\"'\", \"''\") + \"'\") over the names that are not None", "the path encoder lost its shape: %s" % why)
     # every producer of an object path yields a PATH: the kind that only the encoder, str(ObjectPath) and the root literal create
     K = ctx.kinds()
